@@ -195,6 +195,22 @@ func genDotenv() (string, string) {
 	} {
 		fmt.Fprintf(&b, "def dotenv_body_%s : String := %s\n", fb.name, leanStr(funcBody(fb.file, fb.recv, fb.fn)))
 	}
+	// round 6: the glue around the parser that the `dotenvGlue` stream drives
+	ff := parse("dotenv/format.go")
+	for _, fb := range []struct {
+		name string
+		file *ast.File
+		fn   string
+	}{
+		{"Parse", gf, "Parse"},
+		{"UnmarshalBytesWithLookup", gf, "UnmarshalBytesWithLookup"},
+		{"ReadFile", gf, "ReadFile"},
+		{"Read", gf, "Read"},
+		{"RegisterFormat", ff, "RegisterFormat"},
+		{"ParseWithFormat", ff, "ParseWithFormat"},
+	} {
+		fmt.Fprintf(&b, "def dotenv_body_%s : String := %s\n", fb.name, leanStr(funcBody(fb.file, "", fb.fn)))
+	}
 	fmt.Fprintf(&b, "def dotenv_startsWithDigitRegex : String := %s\n", leanStr(regexVar(gf, "startsWithDigitRegex")))
 	// round 6: every index / slice expression of dotenv/parser.go, in source order, as (function, kind, text of the expression).
 	// The totality theorem `index_sites_are_modelled` pins this list to the table of model sites, so an added or
